@@ -89,6 +89,11 @@ pub fn run_c12(rep: &Report) -> serde_json::Value {
             let erl = erl_cmp(&da, &db);
             let lib = a.cmp(b);
             *outcomes.entry(format!("{:?}", erl)).or_insert(0) += 1;
+            // the zero-copy term type implements the same order
+            let libb = erltf::borrowed::BorrowedTerm::from(a).cmp(&erltf::borrowed::BorrowedTerm::from(b));
+            if !erl.admits(libb) && erl.admits(lib) {
+                rep.violation("zero-copy term type disagrees with Erlang's term order", json!({"a": show(a), "b": show(b), "library_borrowed": format!("{:?}", libb), "erlang": format!("{:?}", erl)}));
+            }
             if erl.admits(lib) {
                 // equal exactly when Erlang's == holds
                 if (lib == Ordering::Equal) != erl_eq(&da, &db) {
@@ -110,7 +115,7 @@ pub fn run_c12(rep: &Report) -> serde_json::Value {
     json!({
         "evaluations": rep.get("evaluations"),
         "distinct_nontrivial": (n * (n - 1)) as u64,
-        "rule": "all ordered pairs of a universe of well-formed terms (every type rank; the same number as Integer/BigInt/Float around 2^31, 2^53, 2^63, 2^64, 10^20; equal-length bignums differing in high/middle/low digit; +-0.0; binaries vs bit-strings with shared prefixes; Nil/List/ImproperList with shared prefixes; tuples, maps (keys-before-values witnesses), identifiers plain and node-local, funs; compounds of those) compared by the library and by an exact reference order; distinct_nontrivial = ordered pairs of distinct universe members",
+        "rule": "all ordered pairs of a universe of well-formed terms (every type rank; the same number as Integer/BigInt/Float around 2^31, 2^53, 2^63, 2^64, 10^20; equal-length bignums differing in high/middle/low digit; +-0.0; binaries vs bit-strings with shared prefixes; Nil/List/ImproperList with shared prefixes; tuples, maps (keys-before-values witnesses), identifiers plain and node-local, funs; compounds of those) compared by the library (owned and zero-copy term types) and by an exact reference order; distinct_nontrivial = ordered pairs of distinct universe members",
         "exhaustive": true,
         "universe": n,
         "reference_outcomes": outcomes,
